@@ -42,10 +42,11 @@ Definition pmsg : Type := list pval.          (* ['/cmd', arg, ...] *)
 Record variant := mkVariant {
   v_free_all_skips_last : bool;    (* F14: range(addr, addr + size - 1) in Server._free_all_buffers *)
   v_double_free_sends : bool;      (* F15: Buffer.free goes on after the 'already freed' warning *)
-  v_cue_swapped : bool             (* D1 : Buffer.cue sends start, 0, True, frames *)
+  v_cue_swapped : bool;            (* D1 : Buffer.cue sends start, 0, True, frames *)
+  v_dict_brackets : bool           (* D2 : NodeDictionary._embed_as_osc_arg wraps the key/value pairs in '[' ']' *)
 }.
-Definition as_found := mkVariant true true true.
-Definition repaired := mkVariant false false false.
+Definition as_found := mkVariant true true true true.
+Definition repaired := mkVariant false false false false.
 
 (* ------------------------------------------------------------------------------------ *)
 (* client state                                                                          *)
@@ -129,21 +130,25 @@ Fixpoint aci (s : st) (v : pval) : pval :=
   | _ => v
   end.
 
-(* NodeParameter._embed_as_osc_arg *)
-Fixpoint embed (s : st) (v : pval) : list pval :=
+(* NodeParameter._embed_as_osc_arg; db = the dict case adds array brackets (code as found) *)
+Fixpoint embed (db : bool) (s : st) (v : pval) : list pval :=
   match v with
-  | PList l => PStr "[" :: (fix go (l : list pval) := match l with [] => [PStr "]"] | x :: t => embed s x ++ go t end) l
-  | PTuple l => PStr "[" :: (fix go (l : list pval) := match l with [] => [PStr "]"] | x :: t => embed s x ++ go t end) l
-  | PDict l => PStr "[" :: (fix go (l : list (pval * pval)) :=
-                              match l with [] => [PStr "]"] | (k, x) :: t => embed s k ++ embed s x ++ go t end) l
+  | PList l => PStr "[" :: (fix go (l : list pval) := match l with [] => [PStr "]"] | x :: t => embed db s x ++ go t end) l
+  | PTuple l => PStr "[" :: (fix go (l : list pval) := match l with [] => [PStr "]"] | x :: t => embed db s x ++ go t end) l
+  | PDict l => (if db then [PStr "["] else []) ++
+               (fix go (l : list (pval * pval)) :=
+                  match l with
+                  | [] => if db then [PStr "]"] else []
+                  | (k, x) :: t => embed db s k ++ embed db s x ++ go t
+                  end) l
   | _ => [aci s v]
   end.
 
 (* NodeParameter._as_osc_arg_list *)
-Definition oal (s : st) (v : pval) : list pval :=
+Definition oal (db : bool) (s : st) (v : pval) : list pval :=
   match v with
-  | PList l => flat_map (embed s) l
-  | PTuple l => flat_map (embed s) l
+  | PList l => flat_map (embed db s) l
+  | PTuple l => flat_map (embed db s) l
   | PDict _ => match aci s v with PList r => r | _ => [] end
   | _ => [aci s v]
   end.
@@ -466,8 +471,39 @@ Definition alloc_bufnum (s : st) (bufnum addr : option Z) (n : Z) : option (Z * 
             end
   end.
 
-Definition s_new_msg (s : st) (def : string) (id : pval) (actn : Z) (tg : pval) (args : pval) : pmsg :=
-  PStr "/s_new" :: PStr def :: id :: PInt actn :: tg :: oal s (args_or_empty args).
+(* Node._process_mn_args: (control, bus) -> control, index, channels *)
+Definition mapn_item (s : st) (cb : pval * pval) : option (list pval) :=
+  match snd cb with
+  | PInt z => Some [aci s (fst cb); PInt z; PInt 1]
+  | PBool b => Some [aci s (fst cb); PBool b; PInt 1]
+  | PBus i => match get_bus s i with
+              | Some u => Some [aci s (fst cb); u_index u; u_chans u]
+              | None => None
+              end
+  | _ => None                                  (* AttributeError: no .index *)
+  end.
+Fixpoint mapn_data (s : st) (l : list (pval * pval)) : option (list pval) :=
+  match l with
+  | [] => Some []
+  | cb :: t => match mapn_item s cb, mapn_data s t with Some a, Some b => Some (a ++ b) | _, _ => None end
+  end.
+
+(* [x.node_id for x in node_list] *)
+Fixpoint node_ids_of (s : st) (l : list nat) : option (list pval) :=
+  match l with
+  | [] => Some []
+  | i :: t => match get_node s i, node_ids_of s t with Some x, Some r => Some (n_id x :: r) | _, _ => None end
+  end.
+
+(* ControlBus.set_pairs: [[index + pair[0], pair[1]] ...] flattened *)
+Fixpoint pairs_data (a : Z) (l : list (pval * pval)) : option (list pval) :=
+  match l with
+  | [] => Some []
+  | (i, v) :: t => match padd i a, pairs_data a t with Some i', Some r => Some (i' :: flat v ++ r) | _, _ => None end
+  end.
+
+Definition s_new_msg (db : bool) (s : st) (def : string) (id : pval) (actn : Z) (tg : pval) (args : pval) : pmsg :=
+  PStr "/s_new" :: PStr def :: id :: PInt actn :: tg :: oal db s (args_or_empty args).
 
 Section Step.
 Variable V : variant.
@@ -483,7 +519,7 @@ Definition obj_step (s : st) (o : op) : res :=
       | None => fail (add_node s None) EOther               (* KeyError after the id was drawn *)
       | Some a =>
         ok (add_node s (Some (mkNode (PInt nid) NSynth)))
-           [SMsg (s_new_msg s def (PInt nid) a (target_id s tg) args)]
+           [SMsg (s_new_msg (v_dict_brackets V) s def (PInt nid) a (target_id s tg) args)]
       end
     | SPaused =>
       if negb (target_ok s tg) then fail (add_node s None) EOther else
@@ -491,14 +527,14 @@ Definition obj_step (s : st) (o : op) : res :=
       | None => fail (add_node s None) EOther
       | Some a =>
         ok (add_node s (Some (mkNode (PInt nid) NSynth)))
-           [SBundle PNone [s_new_msg s def (PInt nid) a (target_id s tg) args;
+           [SBundle PNone [s_new_msg (v_dict_brackets V) s def (PInt nid) a (target_id s tg) args;
                            [PStr "/n_run"; PInt nid; PInt 0]]]
       end
     | SGrain =>
       if negb (target_ok s tg) then fail s EOther else
       match action_number act with
       | None => fail s EOther
-      | Some a => ok s [SMsg (s_new_msg s def (PInt (-1)) a (target_id s tg) args)]
+      | Some a => ok s [SMsg (s_new_msg (v_dict_brackets V) s def (PInt (-1)) a (target_id s tg) args)]
       end
     | SReplace same =>
       match tg with
@@ -506,7 +542,7 @@ Definition obj_step (s : st) (o : op) : res :=
         match get_node s i with
         | Some t =>
           let id := if same then n_id t else PInt nid in
-          ok (add_node s (Some (mkNode id NSynth))) [SMsg (s_new_msg s def id 4 (n_id t) args)]
+          ok (add_node s (Some (mkNode id NSynth))) [SMsg (s_new_msg (v_dict_brackets V) s def id 4 (n_id t) args)]
         | None => fail (add_node s None) EOther
         end
       | _ => fail (add_node s None) EOther
@@ -523,7 +559,7 @@ Definition obj_step (s : st) (o : op) : res :=
   | OBasicNew id => ok (add_node s (Some (mkNode (PInt id) NGroup))) []
   | ONodeSet n args =>
     match get_node s n with
-    | Some x => ok s [SMsg (PStr "/n_set" :: n_id x :: oal s (PTuple args))]
+    | Some x => ok s [SMsg (PStr "/n_set" :: n_id x :: oal (v_dict_brackets V) s (PTuple args))]
     | None => fail s EOther
     end
   | ONodeSetn n args =>
@@ -547,21 +583,7 @@ Definition obj_step (s : st) (o : op) : res :=
   | ONodeMapn audio n args =>
     match get_node s n with
     | Some x =>
-      let item (cb : pval * pval) : option (list pval) :=
-          match snd cb with
-          | PInt z => Some [aci s (fst cb); PInt z; PInt 1]
-          | PBool b => Some [aci s (fst cb); PBool b; PInt 1]
-          | PBus i => match get_bus s i with
-                      | Some u => Some [aci s (fst cb); u_index u; u_chans u]
-                      | None => None
-                      end
-          | _ => None                                  (* AttributeError: no .index *)
-          end in
-      match (fix go (l : list (pval * pval)) : option (list pval) :=
-               match l with
-               | [] => Some []
-               | cb :: t => match item cb, go t with Some a, Some b => Some (a ++ b) | _, _ => None end
-               end) (clumps2 args) with
+      match mapn_data s (clumps2 args) with
       | Some data => ok s [SMsg (PStr (if audio then "/n_mapan" else "/n_mapn") :: n_id x :: data)]
       | None => fail s EOther
       end
@@ -654,11 +676,7 @@ Definition obj_step (s : st) (o : op) : res :=
     end
   | OReorder ns tg act =>
     if negb (target_ok s tg) then fail s EOther else
-    match (fix go (l : list nat) : option (list pval) :=
-             match l with
-             | [] => Some []
-             | i :: t => match get_node s i, go t with Some x, Some r => Some (n_id x :: r) | _, _ => None end
-             end) ns, action_number act with
+    match node_ids_of s ns, action_number act with
     | Some ids, Some a => ok s [SMsg (PStr "/n_order" :: PInt a :: target_id s tg :: ids)]
     | _, _ => fail s EOther
     end
@@ -880,11 +898,7 @@ Definition obj_step (s : st) (o : op) : res :=
     | Some x =>
       match u_index x with
       | PInt a =>
-        match (fix go (l : list (pval * pval)) : option (list pval) :=
-                 match l with
-                 | [] => Some []
-                 | (i, v) :: t => match padd i a, go t with Some i', Some r => Some (i' :: flat v ++ r) | _, _ => None end
-                 end) (clumps2 pairs) with
+        match pairs_data a (clumps2 pairs) with
         | Some l => ok s [SMsg (PStr "/c_set" :: l)]
         | None => fail s EOther
         end
